@@ -1155,43 +1155,11 @@ func (P *Prog) checkPrecedence(r *Result) {
 		r.sawFunc(fname(fn))
 		// the formatter and the helpers it calls (the choice of the map may live in a helper), each read
 		// under its call-site bindings
-		units := P.allUnits(fn)
-		var getCall *ssa.Call
-		for _, u := range units {
-			u.with(func() {
-				eachInstr(u.fn, func(_ *ssa.BasicBlock, _ int, in ssa.Instruction) {
-					if c, ok := in.(*ssa.Call); ok {
-						if ci := callOf(c); ci.invoke != nil && ci.invoke.Name() == "Get" && cv(c.Call.Value) == ssa.Value(fn.Params[1]) {
-							getCall = c
-						}
-					}
-				})
-			})
-		}
-		keyed, fallback := false, false
-		for _, u := range units {
-			u.with(func() {
-				eachInstr(u.fn, func(_ *ssa.BasicBlock, _ int, in ssa.Instruction) {
-					lk, ok := in.(*ssa.Lookup)
-					if !ok {
-						return
-					}
-					for _, rt := range P.rootsOf(lk.Index) {
-						if getCall != nil && rt.v == ssa.Value(getCall) {
-							keyed = true
-						}
-						// the default language: a parameter of the function that installs the formatter
-						if p, ok := rt.v.(*ssa.Parameter); ok && p.Parent() == fn.Parent() && types.Identical(p.Type(), types.Typ[types.String]) {
-							fallback = true
-						}
-					}
-				})
-			})
-		}
-		if getCall != nil && keyed && fallback {
-			r.ok("C11/precedence", "i18n#language-from-context", P.pos(fn.Pos()), "language map indexed by ctx.Get(langKey) of this execution, default language otherwise")
+		problems := P.i18nChoice(fn)
+		if len(problems) == 0 {
+			r.ok("C11/precedence", "i18n#language-from-context", P.pos(fn.Pos()), "language map indexed by ctx.Get(langKey) of this execution whenever that language is installed, default language otherwise")
 		} else {
-			r.bad("C11/precedence", "i18n#language-from-context", P.pos(fn.Pos()), fmt.Sprintf("i18n formatter does not select the language from this execution's context with a default fallback (ctx.Get call: %v, keyed lookup: %v, default lookup: %v)", getCall != nil, keyed, fallback))
+			r.bad("C11/precedence", "i18n#language-from-context", P.pos(fn.Pos()), "i18n formatter does not select the language from this execution's context with a default fallback: "+strings.Join(problems, "; "))
 		}
 	} else {
 		r.undecided("C11/precedence", "i18n#language-from-context", "-", "i18n formatter closure not found")
@@ -1204,4 +1172,162 @@ func (P *Prog) checkPrecedence(r *Result) {
 	// every field of the pooled execution context, the values map included, is overwritten at acquisition (C07)
 	shareRule(P, r, checkC07, "C07/reinit", func(o Obligation) bool { return strings.Contains(o.Construct, "#zog/internals.ExecCtx.") }, "C11/context-values-per-call", 2)
 	shareRule(P, r, checkC17, "C17/not-typestate", func(o Obligation) bool { return strings.HasSuffix(o.Construct, "#shape") }, "C11/negated-code-from-builtin", 1)
+}
+
+// i18nChoice decides, on the paths of the i18n formatter (helpers and closures entered), which language map the
+// messages are taken from: whenever the execution names a language (ctx.Get(key) != nil) that is installed (the
+// comma-ok lookup keyed by it succeeds), every map handed on to a formatter is that lookup's result; otherwise it is
+// the map looked up with the default-language parameter of the installing function. A further condition between the
+// lookup and the use (a language used only for the messages it defines itself) sends issues of an installed
+// language to another language's texts.
+func (P *Prog) i18nChoice(fn *ssa.Function) []string {
+	install := fn.Parent()
+	if len(fn.Params) < 2 {
+		return []string{"unexpected formatter signature"}
+	}
+	ctxP := ssa.Value(fn.Params[1])
+	// ctx.Get(...) on this execution's context (the call may sit in a helper or sibling closure: resolved under the
+	// bindings of the path)
+	isGet := func(v ssa.Value) bool {
+		c, ok := v.(*ssa.Call)
+		if !ok {
+			return false
+		}
+		ci := callOf(c)
+		return ci.invoke != nil && ci.invoke.Name() == "Get" && cv(c.Call.Value) == ctxP
+	}
+	fromGet := func(v ssa.Value) bool {
+		for _, rt := range P.rootsOf(v) {
+			if isGet(rt.v) {
+				return true
+			}
+		}
+		return false
+	}
+	fromDefault := func(v ssa.Value) bool {
+		for _, rt := range P.rootsOf(v) {
+			if p, ok := rt.v.(*ssa.Parameter); ok && install != nil && p.Parent() == install && types.Identical(p.Type(), types.Typ[types.String]) {
+				return true
+			}
+		}
+		return false
+	}
+	isLangMap := func(t types.Type) bool {
+		m, ok := t.Underlying().(*types.Map)
+		if !ok {
+			return false
+		}
+		inner, ok := m.Elem().Underlying().(*types.Map)
+		if !ok {
+			return false
+		}
+		b, ok := inner.Elem().Underlying().(*types.Basic)
+		return ok && b.Info()&types.IsString != 0 // type -> code -> message (not the table of languages)
+	}
+	classify := func(v ssa.Value) string {
+		v = cv(v)
+		if ex, ok := v.(*ssa.Extract); ok && ex.Index == 0 {
+			if lk, ok := ex.Tuple.(*ssa.Lookup); ok && lk.CommaOk && fromGet(lk.Index) {
+				return "named"
+			}
+			if lk, ok := ex.Tuple.(*ssa.Lookup); ok && lk.CommaOk && fromDefault(lk.Index) {
+				return "default"
+			}
+		}
+		if lk, ok := v.(*ssa.Lookup); ok {
+			switch {
+			case fromGet(lk.Index):
+				return "named-unchecked"
+			case fromDefault(lk.Index):
+				return "default"
+			}
+		}
+		return "other"
+	}
+	spec := &pathSpec{name: "i18n-choice", inlineAll: true}
+	spec.keep = func(f *ssa.Function) bool { return !inModule(funcPkgPath(f)) || !strings.HasSuffix(funcPkgPath(f), "/i18n") }
+	spec.cond = func(iff *ssa.If) (string, string, string) {
+		c := cv(iff.Cond)
+		if x, eq, isN := isNilCompare(c); isN && isGet(cv(x)) {
+			if eq {
+				return "LANG-SET", "F", "T"
+			}
+			return "LANG-SET", "T", "F"
+		}
+		neg := false
+		if u, ok := c.(*ssa.UnOp); ok && u.Op == token.NOT {
+			c, neg = cv(u.X), true
+		}
+		if ex, ok := c.(*ssa.Extract); ok && ex.Index == 1 {
+			if lk, ok := ex.Tuple.(*ssa.Lookup); ok && lk.CommaOk && fromGet(lk.Index) && isLangMap(lk.X.Type().Underlying().(*types.Map).Elem()) {
+				if neg {
+					return "LANG-KNOWN", "F", "T"
+				}
+				return "LANG-KNOWN", "T", "F"
+			}
+		}
+		return "", "", ""
+	}
+	spec.events = func(in ssa.Instruction) []pathItem {
+		ci := callOf(in)
+		if ci == nil || ci.builtin != "" {
+			return nil
+		}
+		// a language map handed to code outside the i18n package (the formatter constructor), or to a func value
+		var out []pathItem
+		for _, a := range ci.args() {
+			if isLangMap(a.Type()) {
+				out = append(out, pathItem{kind: "USE", val: classify(a), in: in})
+			}
+		}
+		return out
+	}
+	res := P.enumPathsSpec(fn, nil, spec)
+	var problems []string
+	if res.capHit {
+		problems = append(problems, "too many paths to enumerate")
+	}
+	nNamed, nDefault := 0, 0
+	for _, p := range res.paths {
+		if !strings.HasPrefix(p.end, "RETURN") {
+			continue
+		}
+		set, known := "", ""
+		var uses []string
+		for _, it := range p.items {
+			switch it.kind {
+			case "LANG-SET":
+				set = it.val
+			case "LANG-KNOWN":
+				known = it.val
+			case "USE":
+				uses = append(uses, it.val)
+			}
+		}
+		if len(uses) == 0 {
+			problems = append(problems, "no language map is used  [path: "+p.String()+"]")
+			continue
+		}
+		for _, u := range uses {
+			switch {
+			case set == "T" && known == "T":
+				if u != "named" {
+					problems = append(problems, "the execution names an installed language but the messages come from "+u+"  [path: "+p.String()+"]")
+				} else {
+					nNamed++
+				}
+			case u == "default":
+				nDefault++
+			default:
+				problems = append(problems, "no installed language is named, yet the messages come from "+u+" instead of the default language  [path: "+p.String()+"]")
+			}
+		}
+	}
+	if nNamed == 0 {
+		problems = append(problems, "the language named in the context is never used")
+	}
+	if nDefault == 0 {
+		problems = append(problems, "there is no fallback to the default language")
+	}
+	return uniqSorted(problems)
 }
